@@ -89,6 +89,27 @@ Check C11_amb_one_input :
   a_log c = [] \/ exists w, a_win c = Some w /\ a_log c = map (fun v => (w, v)) (firstn (a_k c w) (scripts w)).
 Print Assumptions C11_amb_one_input.
 
+(* The script elements of the amb model stand for SIGNALS of any kind: items and the terminal, which amb.rs sends through the very
+   same election (next, error and complete all go through is_win).  At quiescence, if any input has anything to say, there is a
+   winner and exactly its script has been delivered - all of its items and its terminal, nothing of any other input: also when
+   every input only completes (exactly one complete), and when an input fails after another one has won (its error stays out). *)
+Theorem C11_amb_quiescent_delivers_winner :
+  forall scripts acts,
+  let c := arun acts (ainit scripts) in
+  (forall a, astep c a = c) -> (exists i, scripts i <> []) ->
+  exists w, a_win c = Some w /\ a_log c = map (fun v => (w, v)) (scripts w).
+Proof. exact amb_quiescent_delivers_winner. Qed.
+Check C11_amb_quiescent_delivers_winner :
+  forall scripts acts,
+  let c := arun acts (ainit scripts) in
+  (forall a, astep c a = c) -> (exists i, scripts i <> []) ->
+  exists w, a_win c = Some w /\ a_log c = map (fun v => (w, v)) (scripts w).
+Print Assumptions C11_amb_quiescent_delivers_winner.
+(* three inputs that only complete (signal 0): whichever is first wins, one complete is delivered *)
+Example C11_amb_all_complete :
+  let c := arun [ACheck 1; ACheck 0; ASend 1; ACheck 2] (ainit (fun _ => [0])) in a_log c = [(1, 0)] /\ a_win c = Some 1.
+Proof. vm_compute. split; reflexivity. Qed.
+
 (* take(count) fed by any number of threads: at most count items, at most one complete, nothing after it. *)
 Theorem C11_take_at_most :
   forall count acts,
